@@ -235,6 +235,8 @@ class Ctx:
 
     # ---------------------------------------------------------------- evidence
     def write_evidence(self, status="ok"):
+        if self.prop.startswith("X"):
+            return                                # extra checks keep their own file under evidence_extra/ (also when they fail)
         os.makedirs(EVIDENCE_DIR, exist_ok=True)
         cov = dict(
             states=self.states,
